@@ -900,7 +900,10 @@ func c16RandSeq(rng *rand.Rand, n int) string {
 	return s
 }
 
-func c16RandLen(rng *rand.Rand) int {
+func c16RandLen(rng *rand.Rand, long bool) int {
+	if long { // reads of 150-300 bases only (files larger than the read buffer)
+		return 150 + rng.Intn(151)
+	}
 	switch rng.Intn(5) {
 	case 0:
 		return 1 + rng.Intn(6)
@@ -912,11 +915,11 @@ func c16RandLen(rng *rand.Rand) int {
 	return 60 + rng.Intn(241)
 }
 
-func c16RandRecs(rng *rand.Rand, n int, prefix string, serial *int) []c16Rec {
+func c16RandRecs(rng *rand.Rand, n int, prefix string, serial *int, long bool) []c16Rec {
 	out := make([]c16Rec, n)
 	for i := range out {
 		*serial++
-		L := c16RandLen(rng)
+		L := c16RandLen(rng, long)
 		q := make([]byte, L)
 		for j := range q {
 			q[j] = byte('A' + rng.Intn(10))
@@ -1059,20 +1062,125 @@ func randAnnotOpts(rng *rand.Rand) []c16Inst {
 	return opts
 }
 
+// c16Execute runs one generated (or re-run) event on the real code and completes it with what came out.
+func c16Execute(env *Env, ev map[string]any, job *c16Job, i int, bindir string) {
+	var res c16Result
+	if bindir != "" {
+		ev["level"] = "bin"
+		res = runC16Binary(env, bindir, job, i)
+	} else {
+		ev["level"] = "lib"
+		res = runC16Child(env, job, i)
+	}
+	if res.Hung {
+		ev["hung"] = 1
+	}
+	ev["fatal"] = res.Fatal
+	ev["msg"] = res.Msg
+	orEmpty := func(r []c16Rec) []c16Rec {
+		if r == nil {
+			return []c16Rec{}
+		}
+		return r
+	}
+	ev["out"], ev["outm"] = orEmpty(res.Out), orEmpty(res.Outm)
+	if res.Pred == nil {
+		res.Pred = []int{}
+	}
+	ev["pred"] = res.Pred
+	if res.Files == nil {
+		res.Files = []c16File{}
+	}
+	ev["files"] = res.Files
+	if job.Tool == "grep" {
+		// order the delivered records by input rank (the order of a stream is property C03, not C16)
+		rank := map[string]int{}
+		for j, r := range job.Recs {
+			rank[r.Id] = j
+		}
+		out, outm := orEmpty(res.Out), orEmpty(res.Outm)
+		idx := make([]int, len(out))
+		for j := range idx {
+			idx[j] = j
+		}
+		sort.SliceStable(idx, func(a, b int) bool { return rank[out[idx[a]].Id] < rank[out[idx[b]].Id] })
+		so, sm := make([]c16Rec, len(out)), make([]c16Rec, 0, len(outm))
+		for j, k := range idx {
+			so[j] = out[k]
+			if len(outm) == len(out) {
+				sm = append(sm, outm[k])
+			}
+		}
+		ev["out"], ev["outm"] = so, sm
+	}
+}
+
+// c16Rerun re-executes recorded events (bin/check --replay of a rejected trace event) on the current code.
+func c16Rerun(env *Env, path string, bindir string) {
+	type event struct {
+		Tool  string   `json:"tool"`
+		Argv  []string `json:"argv"`
+		Recs  []c16Rec `json:"recs"`
+		Mates []c16Rec `json:"mates"`
+		Fastq int      `json:"fastq"`
+		Batch int      `json:"batch"`
+		Level string   `json:"level"`
+	}
+	typed := loadCases[event](path)
+	raw := loadCases[map[string]any](path)
+	for i := range typed {
+		t := typed[i]
+		job := c16Job{Tool: t.Tool, Argv: append([]string{}, t.Argv...), Recs: t.Recs, Mates: t.Mates, Fastq: t.Fastq == 1, Batch: t.Batch}
+		ev := raw[i]
+		ev["hung"], ev["fatal"] = 0, 0
+		b := ""
+		if t.Level == "bin" {
+			b = bindir
+			if b == "" {
+				fmt.Fprintln(os.Stderr, "rerun of a binary-level event needs --opt bindir=")
+				os.Exit(2)
+			}
+		}
+		// the id list travels in the event; the argv holds the path of a file that no longer exists
+		if ids, ok := ev["ids"].([]any); ok {
+			for k := range job.Argv {
+				if k > 0 && job.Argv[k-1] == "--id-list" {
+					parts := make([]string, len(ids))
+					for j, x := range ids {
+						parts[j] = fmt.Sprint(x)
+					}
+					job.Argv[k] = "@idlist:" + strings.Join(parts, ",")
+				}
+			}
+		}
+		c16Execute(env, ev, &job, i, b)
+		env.emit(ev)
+	}
+}
+
 func recordC16(env *Env) {
 	if jf := env.opt("child", ""); jf != "" {
 		c16Child(env, jf)
 		return
 	}
 	bindir := env.opt("bindir", "") // set: the events come from the real binaries run on files of 60-400 records
+	if f := env.opt("rerun", ""); f != "" {
+		c16Rerun(env, f, bindir)
+		return
+	}
 	parallel(env.n, 0, func(i int) {
 		rng := rand.New(rand.NewSource(env.seed*7919 + int64(i)))
 		serial := i * 1000
 		nrec := 4 + rng.Intn(12)
+		big := false
 		if bindir != "" {
 			nrec = 60 + rng.Intn(341)
+			// a few events use a file larger than the 1 MiB read buffer: several reader batches, every worker busy
+			if i < env.optInt("big", 0) {
+				nrec, big = 5000, true
+			}
 		}
-		recs := c16RandRecs(rng, nrec, "s", &serial)
+		recs := c16RandRecs(rng, nrec, "s", &serial, big)
 		fastq := rng.Intn(2) == 1
 		batch := []int{1, 2, 3, 7, 1000}[rng.Intn(5)]
 		if bindir != "" {
@@ -1088,7 +1196,7 @@ func recordC16(env *Env) {
 			mates := []c16Rec{}
 			if rng.Intn(2) == 0 {
 				mode = []string{"forward", "reverse", "and", "or", "andnot", "xor"}[rng.Intn(6)]
-				mates = c16RandRecs(rng, nrec, "m", &serial)
+				mates = c16RandRecs(rng, nrec, "m", &serial, big)
 				job.Mates = mates
 			}
 			opts, ids := randGrepOpts(rng, recs, mates)
@@ -1136,55 +1244,7 @@ func recordC16(env *Env) {
 		argv[0] = c16Command[job.Tool]
 		job.Argv = append([]string{}, argv...)
 		ev["tool"], ev["argv"] = job.Tool, argv
-		var res c16Result
-		if bindir != "" {
-			ev["level"] = "bin"
-			res = runC16Binary(env, bindir, &job, i)
-		} else {
-			ev["level"] = "lib"
-			res = runC16Child(env, &job, i)
-		}
-		if res.Hung {
-			ev["hung"] = 1
-		}
-		ev["fatal"] = res.Fatal
-		ev["msg"] = res.Msg
-		orEmpty := func(r []c16Rec) []c16Rec {
-			if r == nil {
-				return []c16Rec{}
-			}
-			return r
-		}
-		ev["out"], ev["outm"] = orEmpty(res.Out), orEmpty(res.Outm)
-		if res.Pred == nil {
-			res.Pred = []int{}
-		}
-		ev["pred"] = res.Pred
-		if res.Files == nil {
-			res.Files = []c16File{}
-		}
-		ev["files"] = res.Files
-		if job.Tool == "grep" {
-			// order the delivered records by input rank (the order of a stream is property C03, not C16)
-			rank := map[string]int{}
-			for j, r := range recs {
-				rank[r.Id] = j
-			}
-			out, outm := orEmpty(res.Out), orEmpty(res.Outm)
-			idx := make([]int, len(out))
-			for j := range idx {
-				idx[j] = j
-			}
-			sort.SliceStable(idx, func(a, b int) bool { return rank[out[idx[a]].Id] < rank[out[idx[b]].Id] })
-			so, sm := make([]c16Rec, len(out)), make([]c16Rec, 0, len(outm))
-			for j, k := range idx {
-				so[j] = out[k]
-				if len(outm) == len(out) {
-					sm = append(sm, outm[k])
-				}
-			}
-			ev["out"], ev["outm"] = so, sm
-		}
+		c16Execute(env, ev, &job, i, bindir)
 		env.emit(ev)
 	})
 }
